@@ -29,7 +29,8 @@ def run(root, tag, seed, n_hist, trace_path, concurrent_every=3):
             for b in range(rng.randint(3, 5) if par else rng.randint(6, 14)):
                 batch = []; newly = []
                 for j in range(4 if par else 1):
-                    k = rng.choice(['new', 'repeat', 'repeat', 'fail', 'pperr', 'dashE', 'version', 'unsupported'] + ([] if par else ['zero']))
+                    k = rng.choice(['new', 'repeat', 'repeat', 'fail', 'pperr', 'dashE', 'version', 'unsupported', 'fatal'] + ([] if par else ['zero']))
+                    if k == 'fatal' and (not known or recache or readonly): k = 'new'
                     if k == 'repeat' and not known: k = 'new'
                     if k == 'new':
                         n += 1; src = f'n{n}.c'; open(f'{w}/{src}', 'w').write(f'int f{n}(void){{return {n};}}\n')
@@ -40,6 +41,10 @@ def run(root, tag, seed, n_hist, trace_path, concurrent_every=3):
                         if recache: ops.append('forced'); expected_runs += 1
                         elif readonly: ops.append('missro'); expected_runs += 1
                         else: ops.append('hit')
+                    elif k == 'fatal':
+                        # a hit whose output cannot be installed (the output path is a directory): sccache's internal fatal-error path
+                        src = rng.choice(known); n += 1; od = f'dirout{n}.o'; os.makedirs(f'{w}/{od}', exist_ok=True)
+                        batch.append([cc, '-c', src, '-o', od]); ops.append('fatal')
                     elif k == 'fail':
                         n += 1; src = f'n{n}.c'; open(f'{w}/{src}', 'w').write('int f(void){return }\n'); batch.append([cc, '-c', src, '-o', src + '.o']); ops.append('fail'); expected_runs += 1
                     elif k == 'pperr':
